@@ -681,11 +681,11 @@ func RuleTG(c *Ctx) {
 		}
 		regs := false
 		ast.Inspect(md.Body, func(x ast.Node) bool {
-			rs, ok := x.(*ast.RangeStmt)
-			if !ok {
+			body := loopBody(x)
+			if body == nil {
 				return true
 			}
-			ast.Inspect(rs.Body, func(y ast.Node) bool {
+			ast.Inspect(body, func(y ast.Node) bool {
 				if call, ok := y.(*ast.CallExpr); ok {
 					if g := Callee(info, call); g != nil && recvNamedOf(g) == tagNamed && tagNamed != nil {
 						regs = true
@@ -708,11 +708,11 @@ func RuleTG(c *Ctx) {
 	rfd0 := c.P.Decl(resolver)
 	appendParam := -1 // index of the resolver's parameter whose tag-name appender is called in the loop
 	ast.Inspect(rfd0.Body, func(x ast.Node) bool {
-		rs, ok := x.(*ast.RangeStmt)
-		if !ok {
+		lb := loopBody(x)
+		if lb == nil {
 			return true
 		}
-		ast.Inspect(rs.Body, func(y ast.Node) bool {
+		ast.Inspect(lb, func(y ast.Node) bool {
 			call, ok := y.(*ast.CallExpr)
 			if !ok {
 				return true
@@ -769,13 +769,27 @@ func RuleTG(c *Ctx) {
 		// every returned name is appended: a range over the result whose body calls the append helper
 		appended := false
 		ast.Inspect(cs.Body, func(x ast.Node) bool {
-			rs, ok := x.(*ast.RangeStmt)
-			if !ok || rs.Pos() < rcall.End() || rs.End() > cs.Call.Pos() {
+			lb := loopBody(x)
+			if lb == nil || x.Pos() < rcall.End() || x.End() > cs.Call.Pos() {
 				return true
 			}
-			if id, ok := ast.Unparen(rs.X).(*ast.Ident); ok {
+			// the loop runs over the resolver's result: ranged over, or indexed in a counted loop
+			var over *ast.Ident
+			if rs, ok := x.(*ast.RangeStmt); ok {
+				over, _ = ast.Unparen(rs.X).(*ast.Ident)
+			} else {
+				ast.Inspect(lb, func(y ast.Node) bool {
+					if ix, ok := y.(*ast.IndexExpr); ok {
+						if id, ok := ast.Unparen(ix.X).(*ast.Ident); ok && tupleDefCall(cf, info, id, 0) == rcall {
+							over = id
+						}
+					}
+					return true
+				})
+			}
+			if id := over; id != nil {
 				if def := tupleDefCall(cf, info, id, 0); def == rcall {
-					ast.Inspect(rs.Body, func(y ast.Node) bool {
+					ast.Inspect(lb, func(y ast.Node) bool {
 						if call, ok := y.(*ast.CallExpr); ok {
 							if g := Callee(info, call); g != nil && strings.Contains(strings.ToLower(g.Name()), "tag") {
 								appended = true
@@ -816,12 +830,11 @@ func RuleTG(c *Ctx) {
 	registers := false
 	regOver, appOver := map[string]bool{}, map[string]bool{}
 	ast.Inspect(rfd.Body, func(x ast.Node) bool {
-		rs, ok := x.(*ast.RangeStmt)
-		if !ok {
+		over, lb := loopOver(info, x)
+		if lb == nil {
 			return true
 		}
-		over := types.ExprString(rs.X)
-		ast.Inspect(rs.Body, func(y ast.Node) bool {
+		ast.Inspect(lb, func(y ast.Node) bool {
 			// filling a pre-sized result by index: names[i] = tags[i].Name
 			if as, ok := y.(*ast.AssignStmt); ok && len(as.Lhs) == 1 && len(as.Rhs) == 1 {
 				if ix, ok := ast.Unparen(as.Lhs[0]).(*ast.IndexExpr); ok {
@@ -857,11 +870,11 @@ func RuleTG(c *Ctx) {
 	// every tag the directive names is carried: the registering loops skip no element
 	skip := ""
 	ast.Inspect(rfd.Body, func(x ast.Node) bool {
-		rs, ok := x.(*ast.RangeStmt)
-		if !ok || !(regOver[types.ExprString(rs.X)] || appOver[types.ExprString(rs.X)]) {
+		over, lb := loopOver(info, x)
+		if lb == nil || !(regOver[over] || appOver[over]) {
 			return true
 		}
-		ast.Inspect(rs.Body, func(y ast.Node) bool {
+		ast.Inspect(lb, func(y ast.Node) bool {
 			switch b := y.(type) {
 			case *ast.FuncLit:
 				return false
@@ -2046,4 +2059,35 @@ func RuleMW1(c *Ctx) {
 		}
 		walk(fd.Body)
 	}
+}
+
+
+// loopBody: the body of a for or range statement, nil for anything else.
+func loopBody(n ast.Node) *ast.BlockStmt {
+	switch l := n.(type) {
+	case *ast.RangeStmt:
+		return l.Body
+	case *ast.ForStmt:
+		return l.Body
+	}
+	return nil
+}
+
+// loopOver: what a loop runs over - the ranged expression, or X of a counted loop whose
+// condition compares the counter with len(X) - and its body.
+func loopOver(info *types.Info, n ast.Node) (string, *ast.BlockStmt) {
+	switch l := n.(type) {
+	case *ast.RangeStmt:
+		return types.ExprString(l.X), l.Body
+	case *ast.ForStmt:
+		if be, ok := ast.Unparen(l.Cond).(*ast.BinaryExpr); ok {
+			for _, side := range []ast.Expr{be.X, be.Y} {
+				if x, isLen := lengthExpr(info, side); isLen {
+					return types.ExprString(x), l.Body
+				}
+			}
+		}
+		return "", l.Body
+	}
+	return "", nil
 }
